@@ -43,6 +43,10 @@ def items():
         k = 'R-%s-%s' % (os.path.basename(os.path.dirname(d)), os.path.basename(d))
         if not any(x[0] == k for x in out) and os.path.exists(d + '/patch.diff'):
             out.append((k, d + '/patch.diff', 'benign', os.path.basename(os.path.dirname(d))))
+    for d in sorted(glob.glob('/verif/benign7/C*/[0-9]')) + sorted(glob.glob('/tmp/benign7/C*/[0-9]')):
+        k = 'U-%s-%s' % (os.path.basename(os.path.dirname(d)), os.path.basename(d))
+        if not any(x[0] == k for x in out) and os.path.exists(d + '/patch.diff'):
+            out.append((k, d + '/patch.diff', 'benign', os.path.basename(os.path.dirname(d))))
     return out
 
 
